@@ -102,6 +102,11 @@ pub fn fragments(f: Fmt) -> Vec<(&'static str, String)> {
         ("placeholder-with-suffix", format!("{}tail", e.atom.prefix_placeholder)),
         ("image-ending-in-suffixed-placeholder", format!("{}A {} {}{}{} R{} B{} {}x{}{}{}", sl, inh, cl, e.compound.connecter_image_extension, sep, sep, sep, e.atom.prefix_placeholder, cr, sr, j)),
         ("compact-sentence", format!("{}A{}B{}{}", sl, inh, sr, j)),
+        // rejected *inside an atom name* (the only atoms whose name can be refused are intervals)
+        ("interval-not-a-number", format!("{}1x", e.atom.prefix_interval)),
+        ("interval-overflow", format!("{}99999999999999999999999999", e.atom.prefix_interval)),
+        ("interval-not-a-number-nested", format!("{}{}{}{} A{} {}1x{} {} B{}{}", sl, cl, e.compound.connecter_conjunction_sequential, sep, sep, e.atom.prefix_interval, cr, e.statement.copula_implication_predictive, sr, j)),
+        ("interval", format!("{}5", e.atom.prefix_interval)),
         ("compact-task", format!("{}0.5{}{}A{}B{}{}{}1{}0.9{}", bl, br, sl, inh, sr, j, tl, ts, tr)),
         ("long-budget", format!("{}0.30000000000000004{}  0.7999999999999999{}   0.15000000000000002  {} A{}", bl, bs, bs, br, j)),
     ]
@@ -191,6 +196,9 @@ fn hooked_multi_check(ctx: &mut Ctx, f: Fmt, seq: &[String]) -> Option<String> {
 }
 
 fn check_seq(ctx: &mut Ctx, f: Fmt, seq: &[String], names: &[String], family: &str) {
+    if ctx.report.evaluations % 16 == 0 {
+        something_fails_first((ctx.report.evaluations / 16) as usize);
+    }
     ctx.report.eval();
     ctx.report.bump(&format!("family.{}", family));
     ctx.report.bump(&format!("format.{}", f.name()));
@@ -518,6 +526,9 @@ fn check_single(ctx: &mut Ctx, f: Fmt, s: &str) {
 }
 
 fn check_single_one(ctx: &mut Ctx, f: Fmt, s: &str, family: &str) {
+    if ctx.report.evaluations % 16 == 0 {
+        something_fails_first((ctx.report.evaluations / 16) as usize);
+    }
     ctx.report.eval();
     ctx.report.bump(family);
     if let Some(w) = single_failure(f, s) {
@@ -617,6 +628,49 @@ fn thread_check(ctx: &mut Ctx, f: Fmt, batch: &[String]) {
 }
 
 pub fn run(ctx: &mut Ctx) {
+    // many threads at once (two per core, plus threads that work through other vocabularies and user-built
+    // formats with other character predicates): every parse gives what it gave alone, before
+    if ctx.shard < 4 {
+        let mut cases: Vec<(Fmt, String, String, String)> = vec![];
+        let lexc = |f: Fmt, s: &str| match observe(|| f.l().parse(s).map(|v| lexgen::lex_canon(&v)).map_err(|_| ())) {
+            Obs::Ret(Ok(c)) => format!("Ok({})", c),
+            Obs::Ret(Err(_)) => "Err".to_string(),
+            Obs::Panic(p) => format!("PANIC({})", panic_site(&p)),
+        };
+        for f in ALL_FMT {
+            let e = f.e();
+            let mut texts: Vec<String> = fragments(f).into_iter().map(|(_, t)| t).collect();
+            let (l, r) = e.compound.brackets_set_extension;
+            texts.push(format!("{}x1{} y2{} z_3{} a-b{}", l, e.compound.separator, e.compound.separator, e.compound.separator, r));
+            texts.push(format!("{}x1 {} y_2{}{}", e.statement.brackets.0, e.statement.copula_inheritance, e.statement.brackets.1, e.sentence.punctuation_judgement));
+            // long inputs of many different lengths (a shared buffer or pool that is only used above some size)
+            for i in 0..16usize {
+                let base = &texts[(i * 5) % texts.len()].clone();
+                texts.push(format!("{}{}{}", " ".repeat(60 + 97 * i), base, " ".repeat(31 * (i % 4))));
+            }
+            for t in texts {
+                let (a, b) = (solo(f, &t), lexc(f, &t));
+                cases.push((f, t, a, b));
+            }
+        }
+        let rounds = if ctx.thorough { 40 } else { 4 };
+        concurrent_family(ctx, "C08", "parse = what it gave alone", cases, rounds, |c| {
+            let a = solo(c.0, &c.1);
+            if a != c.2 {
+                return Some(format!("parse({:?}) [{}] = {} but alone, before, it was {}", c.1, c.0.name(), a, c.2));
+            }
+            let b = match observe(|| c.0.l().parse(&c.1).map(|v| lexgen::lex_canon(&v)).map_err(|_| ())) {
+                Obs::Ret(Ok(x)) => format!("Ok({})", x),
+                Obs::Ret(Err(_)) => "Err".to_string(),
+                Obs::Panic(p) => format!("PANIC({})", panic_site(&p)),
+            };
+            if b != c.3 {
+                return Some(format!("lexical parse({:?}) [{}] = {} but alone, before, it was {}", c.1, c.0.name(), b, c.3));
+            }
+            None
+        });
+    }
+
     let mut idx = 0usize;
     for f in ALL_FMT {
         let frs = fragments(f);
